@@ -181,6 +181,9 @@ func (m *HeapMon) DoFromJSON(vs []E, viaUnmarshal bool) {
 // multiset whose first element is the Peek element, and Peek is minimal.
 func (m *HeapMon) Check() {
 	c := m.c
+	if !c.Observe() {
+		return
+	}
 	if sz := m.C.Size(); sz != m.N {
 		c.Fail("size", "", "%s.Size() = %d, multiset holds %d", m.Name, sz, m.N)
 	}
@@ -244,6 +247,7 @@ var bulkCounts = []int{0, 2, 3, 4, 7, 8, 9, 15, 16, 17}
 
 func runC06(c *core.Ctx) {
 	r := c.R
+	c.SetGaps((c.Index/2)%2 == 1)
 	cm := eCmps[r.Intn(len(eCmps))]
 	var m *HeapMon
 	if c.Index%2 == 0 {
@@ -294,6 +298,8 @@ func runC06(c *core.Ctx) {
 			m.DoFromJSON(vs, r.Bool())
 		}
 	}
+	c.ObserveNow()
+	m.Check()
 	// drain: non-decreasing and exhausts the multiset
 	var prev E
 	first := true
